@@ -78,7 +78,7 @@ fn set_menu(m: &[u64]) {
 
 fn kb() -> suiron::KnowledgeBase {
     let mut kb = suiron::KnowledgeBase::new();
-    for r in ["q(a).", "q(b).", "q(c).", "p($X) :- q($X).", "r(1).", "r(2).", "s($X) :- r($X).", "n($X) :- not(p(c)), $X = oops."] {
+    for r in ["q(a).", "q(b).", "q(c).", "p($X) :- q($X).", "r(1).", "r(2).", "s($X) :- r($X).", "n($X) :- not(p(c)), $X = oops.", "k($X) :- p($X).", "k(z)."] {
         suiron::add_rules(&mut kb, vec![suiron::parse_rule(r).unwrap()]);
     }
     kb
@@ -373,6 +373,93 @@ fn scenario(name: &str) {
             set_menu(&[0]);
             judge_solve_all("S12", &r, &[], t0, t1, true);
             outcome(format!("S12 -> {:?}", r));
+        }
+        // the later session's node is built BEFORE the earlier (slow) session runs
+        "S13" => {
+            let sn_b = node("s($W)", &kb);
+            let sn_a = node("p($Z)", &kb);
+            set_menu(&[0, 1500]);
+            let t0 = clock::now();
+            let r1 = suiron::solve_all(Rc::clone(&sn_a));
+            let t1 = clock::now();
+            set_menu(&[0]);
+            judge_solve_all("S13a", &r1, &p_answers, t0, t1, true);
+            clock::advance_by(200);
+            let t2 = clock::now();
+            let r2 = suiron::solve_all(Rc::clone(&sn_b));
+            judge_solve_all("S13b", &r2, &s_answers, t2, clock::now(), false);
+            if r2 != s_answers.iter().map(|s| s.to_string()).collect::<Vec<_>>() {
+                violation("C22", "S13:prebuilt-session-differs", format!("a query built before an earlier session (which returned {:?}) and run after it returned {:?}; alone it returns {:?}", r1, r2, s_answers));
+            }
+            outcome(format!("S13 -> {:?} then {:?}", r1, r2));
+        }
+        // as S13, but the prepared query is run with next_solution (no timer, no new epoch of its own)
+        "S13b" => {
+            let qb = Rc::new(suiron::parse_query("s($W)").unwrap());
+            let sn_b = suiron::make_base_node(Rc::clone(&qb), &kb);
+            let sn_a = node("p($Z)", &kb);
+            set_menu(&[0, 1500]);
+            let t0 = clock::now();
+            let r1 = suiron::solve_all(Rc::clone(&sn_a));
+            let t1 = clock::now();
+            set_menu(&[0]);
+            judge_solve_all("S13ba", &r1, &p_answers, t0, t1, true);
+            clock::advance_by(200);
+            let mut got = vec![];
+            for _ in 0..4 {
+                match suiron::next_solution(Rc::clone(&sn_b)) {
+                    Some(ss) => got.push(format!("{}", qb.replace_variables(&ss))),
+                    None => break,
+                }
+            }
+            if got != vec!["s(1)".to_string(), "s(2)".to_string()] {
+                violation("C22", "S13b:prebuilt-next-solution-differs", format!("a query built before an earlier session (which returned {:?}) and run after it with next_solution returned {:?} instead of [s(1), s(2)]", r1, got));
+            }
+            outcome(format!("S13b -> {:?} then {:?}", r1, got));
+        }
+        // a slow search with a cheap later clause: whatever a truncated search still finds is not an answer prefix
+        "S14" => {
+            let k_answers = ["$Z = a", "$Z = b", "$Z = c", "$Z = z"];
+            let sn = node("k($Z)", &kb);
+            set_menu(&[0, 1500]);
+            let t0 = clock::now();
+            let r = suiron::solve_all(Rc::clone(&sn));
+            let t1 = clock::now();
+            set_menu(&[0]);
+            judge_solve_all("S14", &r, &k_answers, t0, t1, true);
+            outcome(format!("S14 -> {:?} (search {} ms)", r, t1 - t0));
+        }
+        "S15" => {
+            let k_answers = ["$Z = a", "$Z = b", "$Z = c", "$Z = z"];
+            let sn = node("k($Z)", &kb);
+            let mut got = vec![];
+            let mut k = 0usize;
+            for i in 0..3 {
+                set_menu(&[0, 1500]);
+                let t0 = clock::now();
+                let r = suiron::solve(Rc::clone(&sn));
+                let t1 = clock::now();
+                set_menu(&[0]);
+                got.push(r.clone());
+                if r == TIMEOUT_MSG {
+                    if t1 < t0 + LIMIT_MS {
+                        violation("C23", "S15:timeout-although-within-limit", format!("solve call {} reported a timeout; it ran from t={} to t={}", i + 1, t0, t1));
+                    }
+                    break;
+                } else if r == "No more." {
+                    if k != k_answers.len() {
+                        violation("C23", "S15:no-more-too-early", format!("solve call {} said 'No more.' after {} of {} answers: {:?}", i + 1, k, k_answers.len(), got));
+                    }
+                    break;
+                } else {
+                    if k >= k_answers.len() || r != k_answers[k] {
+                        violation("C23", "S15:wrong-answer", format!("solve call {} returned {:?}; the answer sequence is {:?}; so far {:?}", i + 1, r, k_answers, got));
+                        break;
+                    }
+                    k += 1;
+                }
+            }
+            outcome(format!("S15 -> {:?}", got));
         }
         _ => panic!("unknown scenario {}", name),
     }
